@@ -98,6 +98,9 @@ pub struct Ev {
     pub b: u64,
     /// The acting thread's clock at the event (own component = this event's counter).
     pub clock: VClock,
+    /// The acting thread's own step count / failed compare-exchange count so far.
+    pub own: u32,
+    pub cf: u32,
 }
 
 // ---------------------------------------------------------------------------------------------
@@ -172,6 +175,11 @@ fn wait_go(i: usize) {
     let lim = SPIN_LIMIT.load(Ordering::Relaxed);
     loop {
         if s.go.load(Ordering::Acquire) != 0 {
+            if i != CONTROLLER && EPOCH.load(Ordering::SeqCst) != MY_EPOCH.with(|t| t.get()) {
+                // This execution was abandoned: retire.
+                PARKED.fetch_add(1, Ordering::SeqCst);
+                park_forever();
+            }
             break;
         }
         spins += 1;
@@ -223,6 +231,7 @@ pub struct ThreadSt {
     pub deliver: Option<i32>,
     pub last_site: (&'static str, u32),
     pub last_kind: u8,
+    pub cas_fails: u32,
 }
 
 #[derive(Clone, Copy, PartialEq, Debug)]
@@ -285,6 +294,7 @@ pub struct Exec {
     pub panics: Vec<(usize, String)>,
     pub monitor: Option<Box<dyn Monitor>>,
     pub violation: Option<String>,
+    pub abandoned: bool,
     pub switches: u64,
     pub signals_delivered: u64,
     pub stale_taken: u64,
@@ -306,7 +316,6 @@ pub fn have_exec() -> bool {
 }
 
 /// What to do when a violation is detected mid-execution (set by the explorer / replayer).
-pub static ON_VIOLATION: AtomicUsize = AtomicUsize::new(0);
 /// Shared progress area (set by the worker): decisions are mirrored there for post-mortems.
 pub static PROGRESS: AtomicUsize = AtomicUsize::new(0);
 
@@ -327,20 +336,35 @@ fn progress() -> Option<&'static Progress> {
     }
 }
 
-/// Report a violation from anywhere in harness/engine code running under the token.
+/// Report a violation from anywhere in harness/engine code running under the token. On a model
+/// thread the execution is abandoned (the thread parks forever; the controller retires the others);
+/// on the controller it unwinds to `run_one`.
 pub fn fail(msg: String) -> ! {
     let _g = EngineGuard::enter();
     let e = exec();
     if e.violation.is_none() {
         e.violation = Some(msg);
     }
-    let f = ON_VIOLATION.load(Ordering::SeqCst);
-    if f != 0 {
-        let f: fn(&mut Exec) = unsafe { std::mem::transmute(f) };
-        f(e);
+    let t = tid();
+    if t == 0 || t == NONE {
+        std::panic::resume_unwind(Box::new(ViolationUnwind));
     }
-    eprintln!("violation (no handler installed): {:?}", e.violation);
-    unsafe { libc::_exit(3) }
+    e.abandoned = true;
+    PARKED.fetch_add(1, Ordering::SeqCst);
+    give(CONTROLLER);
+    park_forever();
+}
+
+static EPOCH: AtomicU64 = AtomicU64::new(1);
+static EXITED: AtomicU64 = AtomicU64::new(0);
+static PARKED: AtomicU64 = AtomicU64::new(0);
+static NEVER: AtomicU32 = AtomicU32::new(0);
+thread_local! { static MY_EPOCH: Cell<u64> = const { Cell::new(0) }; }
+
+fn park_forever() -> ! {
+    loop {
+        futex_wait(&NEVER, 0);
+    }
 }
 
 impl Exec {
@@ -367,6 +391,7 @@ impl Exec {
             panics: Vec::new(),
             monitor: None,
             violation: None,
+            abandoned: false,
             switches: 0,
             signals_delivered: 0,
             stale_taken: 0,
@@ -439,10 +464,10 @@ impl Exec {
 
     pub fn push_ev(&mut self, tag: &'static str, a: u64, b: u64) {
         let t = tid();
-        let (clock, depth) = if t != NONE && t < self.threads.len() {
-            (self.threads[t].clock, handler_depth() as u8)
+        let (clock, depth, own, cf) = if t != NONE && t < self.threads.len() {
+            (self.threads[t].clock, handler_depth() as u8, self.threads[t].steps as u32, self.threads[t].cas_fails)
         } else {
-            ([0; MAX_THREADS], 0)
+            ([0; MAX_THREADS], 0, 0, 0)
         };
         let ev = Ev {
             step: self.steps,
@@ -452,6 +477,8 @@ impl Exec {
             a,
             b,
             clock,
+            own,
+            cf,
         };
         if let Some(mut m) = self.monitor.take() {
             let r = m.on_event(self, &ev);
@@ -981,6 +1008,9 @@ fn hook_post(op: &shim::Op, real: u64, ok: bool) -> u64 {
         };
         e.push_ev(tag, op.line as u64, ret);
     }
+    if !ok {
+        e.threads[t].cas_fails += 1;
+    }
     stepped2(t, !(op.kind == shim::OP_LOAD || !ok));
     ret
 }
@@ -1149,7 +1179,10 @@ pub fn log(tag: &'static str, a: u64, b: u64) {
         return;
     }
     let _g = EngineGuard::enter();
-    exec().push_ev(tag, a, b);
+    let e = exec();
+    e.push_ev(tag, a, b);
+    let t = tid();
+    e.tick(t);
 }
 
 /// Harness-level non-atomic access to a named region (race-checked).
@@ -1236,7 +1269,7 @@ pub struct ThreadSpec<S> {
     pub max_nest: u32,
 }
 
-pub struct Scenario<S: Sync + Send> {
+pub struct Scenario<S: Sync + Send + 'static> {
     pub name: String,
     pub opts: Opts,
     /// Signals that model threads must have unblocked (blocked in the controller).
@@ -1259,6 +1292,7 @@ pub struct Outcome {
     pub stale: u64,
     pub log: Vec<Ev>,
     pub kinds: Vec<Vec<AltKind>>,
+    pub violation: Option<String>,
 }
 
 fn block_signals(sigs: &[i32], how: i32) {
@@ -1272,7 +1306,73 @@ fn block_signals(sigs: &[i32], how: i32) {
     }
 }
 
-pub fn run_one<S: Sync + Send>(sc: &Scenario<S>, choices: &[u32], keep_log: bool) -> Outcome {
+/// Set when the previous execution was abandoned (its threads are parked forever and may still
+/// reference the old registry): the next registry reset must leak instead of dropping.
+pub static LEAK_NEXT_RESET: std::sync::atomic::AtomicBool = std::sync::atomic::AtomicBool::new(false);
+
+struct ViolationUnwind;
+
+fn new_thread_st(name: &'static str, pending: Pending, clock: VClock, nest: Vec<i32>, max_nest: u32) -> ThreadSt {
+    ThreadSt {
+        name,
+        pending,
+        yielded: false,
+        clock,
+        steps: 0,
+        handler_steps: 0,
+        nest_signals: nest,
+        max_nest,
+        nested_done: 0,
+        active_sigs: vec![],
+        deliver: None,
+        last_site: ("start", 0),
+        last_kind: 0,
+        cas_fails: 0,
+    }
+}
+
+fn model_thread<S: Sync + Send + 'static>(sc: usize, st: std::sync::Arc<S>, i: usize, epoch: u64) {
+    let sc: &Scenario<S> = unsafe { &*(sc as *const Scenario<S>) };
+    let ts = &sc.threads[i];
+    let me = i + 1;
+    TID.with(|t| t.set(me));
+    MY_EPOCH.with(|t| t.set(epoch));
+    DEPTH.with(|d| d.set(0));
+    IN_ENGINE.with(|c| c.set(true));
+    block_signals(&sc.signals, libc::SIG_UNBLOCK);
+    wait_go(me);
+    exec().threads[me].pending = Pending::Op;
+    exec().push_ev("thread_start", me as u64, 0);
+    IN_ENGINE.with(|c| c.set(false));
+    let r = std::panic::catch_unwind(std::panic::AssertUnwindSafe(|| (ts.body)(&st)));
+    IN_ENGINE.with(|c| c.set(true));
+    check_alloc_flag();
+    if let Err(p) = r {
+        let msg: String = if let Some(s) = p.downcast_ref::<&str>() {
+            s.to_string()
+        } else if let Some(s) = p.downcast_ref::<String>() {
+            s.clone()
+        } else {
+            "panic".into()
+        };
+        let e = exec();
+        e.push_ev("thread_panic", me as u64, 0);
+        e.panics.push((me, msg));
+    }
+    drop(st);
+    let e = exec();
+    e.push_ev("thread_end", me as u64, 0);
+    e.threads[me].pending = Pending::Finished;
+    block_signals(&sc.signals, libc::SIG_BLOCK);
+    TID.with(|t| t.set(NONE));
+    // hand the token on (TID is needed by schedule only through the argument)
+    TID.with(|t| t.set(me));
+    schedule(me);
+    TID.with(|t| t.set(NONE));
+    EXITED.fetch_add(1, Ordering::SeqCst);
+}
+
+pub fn run_one<S: Sync + Send + 'static>(sc: &Scenario<S>, choices: &[u32], keep_log: bool) -> Outcome {
     install_hooks();
     block_signals(&sc.signals, libc::SIG_BLOCK);
     let mut ex = Box::new(Exec::new(sc.opts.clone(), choices.to_vec()));
@@ -1280,22 +1380,9 @@ pub fn run_one<S: Sync + Send>(sc: &Scenario<S>, choices: &[u32], keep_log: bool
         ex.opts.horizon = 200_000;
     }
     // thread 0 = controller (setup / finish)
-    ex.threads.push(ThreadSt {
-        name: "main",
-        pending: Pending::Op,
-        yielded: false,
-        clock: [0; MAX_THREADS],
-        steps: 0,
-        handler_steps: 0,
-        nest_signals: vec![],
-        max_nest: 0,
-        nested_done: 0,
-        active_sigs: vec![],
-        deliver: None,
-        last_site: ("", 0),
-        last_kind: 0,
-    });
-    ex.threads[0].clock[0] = 1;
+    let mut c0 = [0; MAX_THREADS];
+    c0[0] = 1;
+    ex.threads.push(new_thread_st("main", Pending::Op, c0, vec![], 0));
     if let Some(m) = &sc.monitor {
         ex.monitor = Some(m());
     }
@@ -1308,115 +1395,127 @@ pub fn run_one<S: Sync + Send>(sc: &Scenario<S>, choices: &[u32], keep_log: bool
     }
     TID.with(|t| t.set(0));
     let _g = EngineGuard::enter();
-    let state = {
-        IN_ENGINE.with(|c| c.set(false));
-        let s = (sc.setup)();
-        IN_ENGINE.with(|c| c.set(true));
-        s
-    };
     let n = sc.threads.len();
     assert!(n + 1 <= MAX_THREADS);
-    let e = exec();
-    let base = e.threads[0].clock;
-    for (i, ts) in sc.threads.iter().enumerate() {
-        let mut clock = base;
-        clock[i + 1] = 1;
-        e.threads.push(ThreadSt {
-            name: ts.name,
-            pending: Pending::Start,
-            yielded: false,
-            clock,
-            steps: 0,
-            handler_steps: 0,
-            nest_signals: ts.nest_signals.clone(),
-            max_nest: ts.max_nest,
-            nested_done: 0,
-            active_sigs: vec![],
-            deliver: None,
-            last_site: ("start", 0),
-            last_kind: 0,
-        });
-    }
-    e.tick(0);
-    e.phase = Phase::Priming;
-    for s in SLOTS.iter() {
-        s.go.store(0, Ordering::SeqCst);
-    }
-    let sigs = sc.signals.clone();
-    std::thread::scope(|scope| {
+    let epoch = EPOCH.load(Ordering::SeqCst);
+    MY_EPOCH.with(|t| t.set(epoch));
+    EXITED.store(0, Ordering::SeqCst);
+    PARKED.store(0, Ordering::SeqCst);
+    let mut spawned = 0usize;
+    let mut handles = Vec::new();
+
+    let body = std::panic::catch_unwind(std::panic::AssertUnwindSafe(|| -> Result<u64, String> {
+        let state = {
+            IN_ENGINE.with(|c| c.set(false));
+            let s = (sc.setup)();
+            IN_ENGINE.with(|c| c.set(true));
+            std::sync::Arc::new(s)
+        };
+        LEAK_NEXT_RESET.store(false, Ordering::SeqCst);
+        let e = exec();
+        let base = e.threads[0].clock;
         for (i, ts) in sc.threads.iter().enumerate() {
-            let st = &state;
-            let sigs = &sigs;
-            std::thread::Builder::new()
+            let mut clock = base;
+            clock[i + 1] = 1;
+            e.threads.push(new_thread_st(ts.name, Pending::Start, clock, ts.nest_signals.clone(), ts.max_nest));
+        }
+        e.tick(0);
+        e.phase = Phase::Priming;
+        for s in SLOTS.iter() {
+            s.go.store(0, Ordering::SeqCst);
+        }
+        let scp = sc as *const Scenario<S> as usize;
+        for i in 0..n {
+            let st = state.clone();
+            let h = std::thread::Builder::new()
                 .stack_size(512 * 1024)
-                .spawn_scoped(scope, move || {
-                    let me = i + 1;
-                    TID.with(|t| t.set(me));
-                    DEPTH.with(|d| d.set(0));
-                    IN_ENGINE.with(|c| c.set(true));
-                    block_signals(sigs, libc::SIG_UNBLOCK);
-                    wait_go(me);
-                    // first grant: either plain run or "deliver first" is impossible at Start
-                    exec().threads[me].pending = Pending::Op;
-                    exec().push_ev("thread_start", me as u64, 0);
-                    IN_ENGINE.with(|c| c.set(false));
-                    let r = std::panic::catch_unwind(std::panic::AssertUnwindSafe(|| (ts.body)(st)));
-                    IN_ENGINE.with(|c| c.set(true));
-                    check_alloc_flag();
-                    if let Err(p) = r {
-                        let msg: String = if let Some(s) = p.downcast_ref::<&str>() {
-                            s.to_string()
-                        } else if let Some(s) = p.downcast_ref::<String>() {
-                            s.clone()
-                        } else {
-                            "panic".into()
-                        };
-                        let e = exec();
-                        e.push_ev("thread_panic", me as u64, 0);
-                        e.panics.push((me, msg));
-                    }
-                    let e = exec();
-                    e.push_ev("thread_end", me as u64, 0);
-                    e.threads[me].pending = Pending::Finished;
-                    block_signals(sigs, libc::SIG_BLOCK);
-                    // hand the token on
-                    schedule(me);
-                })
+                .spawn(move || model_thread::<S>(scp, st, i, epoch))
                 .expect("spawn model thread");
+            handles.push(h);
+            spawned += 1;
         }
         // Prime: every thread runs alone up to its first scheduling point.
         exec().threads[0].pending = Pending::Finished;
-        TID.with(|t| t.set(0));
-        for x in 1..=sc.threads.len() {
+        for x in 1..=n {
             exec().running = x;
             give(x);
             wait_go(CONTROLLER);
+            if exec().abandoned {
+                return Err(String::new());
+            }
         }
         exec().phase = Phase::Parallel;
         // The controller makes the first decision as "thread 0" (not enabled itself).
         schedule_from_controller();
         wait_go(CONTROLLER);
-    });
+        if exec().abandoned {
+            return Err(String::new());
+        }
+        for h in handles.drain(..) {
+            let _ = h.join();
+        }
+        let e = exec();
+        e.phase = Phase::Finish;
+        e.threads[0].pending = Pending::Op;
+        // join edges
+        let mut c = e.threads[0].clock;
+        for x in 1..e.threads.len() {
+            let o = e.threads[x].clock;
+            vc_join(&mut c, &o);
+        }
+        e.threads[0].clock = c;
+        check_alloc_flag();
+        let state = match std::sync::Arc::try_unwrap(state) {
+            Ok(s) => s,
+            Err(_) => return Err("engine: scenario state still shared after all threads ended".into()),
+        };
+        IN_ENGINE.with(|c| c.set(false));
+        let r = (sc.finish)(state, e);
+        IN_ENGINE.with(|c| c.set(true));
+        check_alloc_flag();
+        r
+    }));
     let e = exec();
-    e.phase = Phase::Finish;
-    e.threads[0].pending = Pending::Op;
-    // join edges
-    let mut c = e.threads[0].clock;
-    for x in 1..e.threads.len() {
-        let o = e.threads[x].clock;
-        vc_join(&mut c, &o);
+    let mut digest = 0;
+    match body {
+        Ok(Ok(d)) => digest = d,
+        Ok(Err(m)) => {
+            if e.violation.is_none() {
+                e.violation = Some(m);
+            }
+        }
+        Err(p) => {
+            if p.downcast_ref::<ViolationUnwind>().is_none() {
+                // a genuine panic in harness/engine code on the controller
+                let msg = p.downcast_ref::<String>().cloned().or_else(|| p.downcast_ref::<&str>().map(|s| s.to_string())).unwrap_or_default();
+                if e.violation.is_none() {
+                    e.violation = Some(format!("panic: a library call made during scenario setup/finish panicked: {}", msg));
+                }
+            }
+        }
     }
-    e.threads[0].clock = c;
-    check_alloc_flag();
-    IN_ENGINE.with(|c| c.set(false));
-    let r = (sc.finish)(state, e);
-    IN_ENGINE.with(|c| c.set(true));
-    check_alloc_flag();
-    let digest = match r {
-        Ok(d) => d,
-        Err(m) => fail(m),
-    };
-    let e = exec();
+    let abandoned = e.abandoned;
+    if abandoned {
+        // Retire every model thread of this execution that has not exited: bump the epoch, kick
+        // the slots, wait until each has either exited or parked for good.
+        EPOCH.fetch_add(1, Ordering::SeqCst);
+        for i in 1..=MAX_THREADS - 1 {
+            give(i);
+        }
+        let t0 = std::time::Instant::now();
+        while (EXITED.load(Ordering::SeqCst) + PARKED.load(Ordering::SeqCst)) < spawned as u64 {
+            std::thread::yield_now();
+            if t0.elapsed() > std::time::Duration::from_secs(10) {
+                eprintln!("ENGINE ERROR: abandoned threads did not retire");
+                unsafe { libc::_exit(2) }
+            }
+        }
+        for s in SLOTS.iter() {
+            s.go.store(0, Ordering::SeqCst);
+        }
+        std::mem::forget(handles);
+        LEAK_NEXT_RESET.store(true, Ordering::SeqCst);
+    }
     let out = Outcome {
         decisions: e.decisions.iter().map(|d| (d.n, d.chosen)).collect(),
         costs: (0..e.decisions.len()).map(|i| e.costs_of(i).to_vec()).collect(),
@@ -1431,7 +1530,8 @@ pub fn run_one<S: Sync + Send>(sc: &Scenario<S>, choices: &[u32], keep_log: bool
         switches: e.switches,
         signals: e.signals_delivered,
         stale: e.stale_taken,
-        log: if keep_log { std::mem::take(&mut e.log) } else { vec![] },
+        log: if keep_log || e.violation.is_some() { std::mem::take(&mut e.log) } else { vec![] },
+        violation: e.violation.take(),
     };
     unsafe {
         EXEC = std::ptr::null_mut();
@@ -1440,10 +1540,13 @@ pub fn run_one<S: Sync + Send>(sc: &Scenario<S>, choices: &[u32], keep_log: bool
     if let Some(p) = progress() {
         p.executions.fetch_add(1, Ordering::Relaxed);
     }
-    drop(ex);
+    if abandoned {
+        Box::leak(ex);
+    } else {
+        drop(ex);
+    }
     out
 }
-
 
 fn schedule_from_controller() {
     // The controller holds the token initially and behaves like a finished thread 0.
@@ -1455,4 +1558,19 @@ fn schedule_from_controller() {
     }
     // Behave like a finished thread handing the token on.
     schedule(0);
+}
+
+/// Does event `a` (log index `ia`) happen-before event `b` (log index `ib`)?
+pub fn hb(a: &Ev, ia: usize, b: &Ev, ib: usize) -> bool {
+    if ia >= ib {
+        return false;
+    }
+    if a.tid == b.tid {
+        return true;
+    }
+    let u = a.tid as usize;
+    if u >= MAX_THREADS {
+        return false;
+    }
+    b.clock[u] >= a.clock[u]
 }
